@@ -13,6 +13,10 @@ CONSTANTS
   MaxSteps = 3
   SizeClasses <- AllSizes
   UnitLens <- UnitLensSmall
+  Setups <- SetupsQuick
+  AuthSetups <- AuthSetupsQuick
+  Forms <- FormsDef
+  AltForm <- AltFormDef
   Variant = "ok"
 INVARIANT HashInputOk
 INVARIANT HashedLength
